@@ -94,6 +94,10 @@ theorem e2e_heading_ids_pairwise_distinct : type_of% @GM.Props.C15E2E.heading_id
 theorem e2e_heading_ids_table_fed_in_close_order : type_of% @GM.Props.C15E2E.heading_ids_table_fed_in_close_order := @GM.Props.C15E2E.heading_ids_table_fed_in_close_order
 theorem e2e_heading_start_tag_rendered : type_of% @GM.Props.C15E2E.heading_start_tag_rendered := @GM.Props.C15E2E.heading_start_tag_rendered
 theorem e2e_heading_ids_rendered : type_of% @GM.Props.C15E2E.heading_ids_rendered := @GM.Props.C15E2E.heading_ids_rendered
+theorem e2e_c15_end_to_end : type_of% @GM.Props.C15E2E.c15_end_to_end := @GM.Props.C15E2E.c15_end_to_end
+theorem e2e_headings_always_closed : type_of% @GM.Props.C15E2E.headings_always_closed := @GM.Props.C15E2E.headings_always_closed
+theorem e2e_headings_always_once : type_of% @GM.Props.C15E2E.headings_always_once := @GM.Props.C15E2E.headings_always_once
+theorem e2e_block_phase_close_discipline : type_of% @GM.Props.C15E2E.block_phase_close_discipline := @GM.Props.C15E2E.block_phase_close_discipline
 theorem e2e_heading_ids_document_local : type_of% @GM.Props.C15E2E.heading_ids_document_local := @GM.Props.C15E2E.heading_ids_document_local
 
 end GM.Props.C15
